@@ -247,7 +247,7 @@ struct History {
       const int k = int(rng.below(26));
       switch (k) {
       case 0: S->exprs_unary(); break; case 1: S->exprs_binary(); break; case 2: S->exprs_other(); break; case 3: S->stmts(); break; case 4: S->directives(); break;
-      case 5: S->types_and_names(); break; case 6: S->decls_and_regions(); break; case 7: S->forms(); break; case 8: S->attributes_captures_units(); break;
+      case 5: S->types_and_names(); S->unified_neighbours(); break; case 6: S->decls_and_regions(); break; case 7: S->forms(); break; case 8: S->attributes_captures_units(); break;
       case 9: { int n = 1 + int(rng.below(40)); for (int i = 0; i < n; ++i) fresh_generative(*en->add_member(id("e", serial++)), "add_member"); break; }
       case 10: { int n = 1 + int(rng.below(20)); for (int i = 0; i < n; ++i) { fresh_generative(*cls->declare_field(id("f", serial++), T()), "declare_field"); if (rng.chance(20)) fresh_generative(*cls->declare_base(*un), "declare_base"); } break; }
       case 11: { int n = 1 + int(rng.below(20)); for (int i = 0; i < n; ++i) fresh_generative(*ns->declare_var(id("v", int(rng.below(6))), *tpool[rng.below(3)]), "declare_var"); break; }
